@@ -389,7 +389,7 @@ def check(src, rep):
                        "implicit exceptions other than the ones modelled (KeyError on dict lookup, int()) do not occur in "
                        "str/list primitives"]
     rep.trusted_base = ["CPython ast and re._parser", "sa/consteval.py", "sa/absint.py", "sa/regexast.py"]
-    it = new_interp(src)
+    it = new_interp(src, check_views=True)
     fold = it.folder
     counts = {}
     tm = rep.guard(tokenizer.rules_tokenizer, src, rep, fold, "X2", counts)
